@@ -168,7 +168,10 @@ impl ToTokens for DataMatchArm<'_> {
             tokens.append_all(quote!(
                 #name_in_attr => {
                     if let ::darling::export::syn::Meta::List(ref __data) = *__nested {
-                        let __items = ::darling::export::NestedMeta::parse_meta_list(__data.tokens.clone())?;
+                        // What is wrong inside the variant's list, a syntax error too, is located
+                        // under the variant's name like every other error of the variant.
+                        let __items = ::darling::export::NestedMeta::parse_meta_list(__data.tokens.clone())
+                            .map_err(|__e| ::darling::Error::from(__e).with_span(__nested).at(#name_in_attr))?;
                         let __items = &__items;
 
                         #declare_errors
